@@ -112,7 +112,7 @@ PROPS = {
                  "Dynamic, per witness: plain and debug build give the same verdict; marker events occur exactly where "
                  "the reference prescribes with the prescribed arguments; call sites and markers stay in one-to-one "
                  "correspondence over all runs; TrackedCall::map_value on the observed arguments returns the right kind and, "
-                 "for dbg!/unwrap_left/unwrap_right, the source-level value. One case in 40 is a straight-line main with 140-400 "
+                 "for dbg!/unwrap_left/unwrap_right, the source-level value. One case in 40 (thorough: 400) is a straight-line main with 140-400 "
                  "(thorough: -840) tracked call sites of every kind, all executed, so that marker identity is exercised beyond "
                  "256 sites. distinct_nontrivial = distinct (program, witness) pairs."),
         "assumptions": [ORDER_ASSUMPTION, "marker values of which Simplicity pruned a part to unit are not judged for reconstruction",
